@@ -232,6 +232,7 @@ pub struct LockSummary {
     pub model_gas: u128,
     pub executed_total: u64,
     pub final_state: MState,
+    pub compute_log: Vec<mvm::ComputeInfo>,
 }
 
 pub struct LockCfg {
@@ -501,6 +502,7 @@ pub fn lockstep(case: &ExecCase, cfg: &LockCfg, obs: &mut Obs) -> Result<LockSum
     sum.model_gas = m.gas;
     sum.executed_total = m.executed_total;
     sum.final_state = m.st.clone();
+    sum.compute_log = m.compute_log.clone();
     // Gas as accounted by the stepped driver equals the model's sum when nothing failed.
     if sum.failed_at.is_none() && sum.unspec.is_none() && !sum.over_budget && !sum.excluded_breadth {
         ensure!(
